@@ -18,8 +18,10 @@ RULE = (
     "subcheck 'repeat': any configuration (all 14 algorithms, NumPy-seeded, never the injected script) is run twice in one process "
     "with the same seed and reward law (point-dependent laws make trajectories state-dependent): the point sequences and the "
     "recommendation must be bit-identical, and the domain object handed to the algorithm must afterwards equal a deep copy taken "
-    "before construction in values, element types and inner-list identity. subcheck 'interleave': a Hypothesis RuleBasedStateMachine "
-    "holds two independently constructed instances (RNG-free algorithms on RNG-free partitions) and Hypothesis chooses the "
+    "before construction in values, element types and inner-list identity (one case in twelve hands the box over as a 2-D float NumPy "
+    "array and judges only that the array is not written to). subcheck 'interleave': a Hypothesis RuleBasedStateMachine "
+    "holds two independently constructed instances (RNG-free partitions; VROOM, which draws from NumPy's global generator, takes part "
+    "because every instance gets its own generator state, swapped in around each of its calls) and Hypothesis chooses the "
     "subcheck 'twins' (two instances of the same class on the same partition class and the same domain list object, alternating for up to 150 rounds each) and the interleaving of whole rounds (step_A / step_B) and of split rounds (pull_A ... calls on B ... receive_A); each instance's sequence must equal the one it produces alone. subcheck 'process' : the same "
     "case is run in fresh subprocesses under PYTHONHASHSEED in {0, 1, 12345}, one of them after allocating garbage (shifts object ids), "
     "and once more inside the worker itself right after a 'polluter' instance of the same algorithm class on another domain (the "
